@@ -33,6 +33,8 @@ var (
 	flagOne   = flag.String("c09one", "", "internal: hex input to execute once in the child (replay)")
 )
 
+var dbgCall, dbgQ time.Duration
+
 const hangCap = 10 * time.Second // only ever classifies a HANG
 
 // seed is one valid sample message of a protocol plus the positions of its
@@ -43,21 +45,24 @@ type seed struct {
 	len8  []int               // offsets of 8-bit length/count fields
 	len16 []int               // offsets of big-endian 16-bit length fields
 	rep   [2]int              // [start,end) of one repeatable option/TLV (0,0 = none)
+	cold  [2]int              // [start,end) of bytes no handler looks at (BOOTP sname/file): position sweep only in thorough
 	fix   func([]byte) []byte // recompute outer length fields after a structural change (may be nil)
 }
 
 // target = one entry point in one pre-state.
 type target struct {
-	name    string // unique: "<entry>[<pre-state>]"
-	entry   string // entry point group used when reporting
-	seeds   []seed
-	strN    int                       // all byte strings up to this length (2, or 3 for pure decoders)
-	wraps   []func(p []byte) []byte   // short strings are additionally embedded as payload by each wrapper
-	prep    func(in []byte) []byte    // optional final transform of every generated input (e.g. re-sign)
-	isolate bool                      // run in child processes (the code under test starts goroutines that touch the input)
-	newCtx  func() (any, func())      // optional per-worker context + cleanup
-	call    func(ctx any, in []byte) bool // execute on the REAL code; returns "non-trivial" (got past the first checks)
-	light   bool                      // skip 16-bit sweeps (expensive per call)
+	name       string // unique: "<entry>[<pre-state>]"
+	entry      string // entry point group used when reporting
+	seeds      []seed
+	strN       int                           // all byte strings up to this length (2, or 3 for pure decoders)
+	wraps      []func(p []byte) []byte       // short strings are additionally embedded as payload by each wrapper
+	prep       func(in []byte) []byte        // optional final transform of every generated input (e.g. re-sign)
+	isolate    bool                          // run in child processes (the code under test starts goroutines that touch the input)
+	newCtx     func() (any, func())          // optional per-worker context + cleanup
+	call       func(ctx any, in []byte) bool // execute on the REAL code; returns "non-trivial" (got past the first checks)
+	light      bool                          // skip 16-bit sweeps (expensive per call)
+	quickSkip  bool                          // part runs only in the thorough tier
+	quickSeeds int                           // if >0: the quick tier uses only the first n seeds (expensive isolated targets)
 }
 
 // job enumerates a deterministic chunk of a target's inputs.
@@ -83,6 +88,7 @@ type witness struct {
 	target  string
 	entry   string
 	count   int64
+	deaths  int64
 	targets map[string]int64
 }
 
@@ -172,14 +178,17 @@ func less(a, b []byte) bool {
 func (e *engine) record(kind string, t *target, in []byte, site, msg, stack string) {
 	e.mu.Lock()
 	defer e.mu.Unlock()
-	key := kind + "|" + site
+	key := site // one report per root cause, whatever way it surfaced (recovered panic / dead worker)
 	w := e.wit[key]
 	if w == nil {
 		w = &witness{site: site, kind: kind, targets: map[string]int64{}}
 		e.wit[key] = w
 		w.input, w.target, w.entry, w.msg, w.stack = append([]byte(nil), in...), t.name, t.entry, msg, stack
 	} else if less(in, w.input) || (len(in) == len(w.input) && string(in) == string(w.input) && t.name < w.target) {
-		w.input, w.target, w.entry, w.msg, w.stack = append([]byte(nil), in...), t.name, t.entry, msg, stack
+		w.input, w.target, w.entry, w.msg, w.stack, w.kind = append([]byte(nil), in...), t.name, t.entry, msg, stack, kind
+	}
+	if kind == "worker-death" {
+		w.deaths++
 	}
 	w.count++
 	w.targets[t.name]++
@@ -205,6 +214,7 @@ func (e *engine) runJobs(t *target, jobs []job, jobIdx []int, nw int, skipJob, s
 	slots := make([]*slot, nw)
 	var wg sync.WaitGroup
 	hung := make(chan struct{})
+	start := make(chan struct{})
 	var hungOnce sync.Once
 	for w := 0; w < nw; w++ {
 		sl := &slot{}
@@ -212,6 +222,7 @@ func (e *engine) runJobs(t *target, jobs []job, jobIdx []int, nw int, skipJob, s
 		wg.Add(1)
 		go func() {
 			defer wg.Done()
+			<-start // every goroutine of the harness exists before the first call (goroutine baseline)
 			var ctx any
 			var cleanup func()
 			if t.newCtx != nil {
@@ -243,12 +254,16 @@ func (e *engine) runJobs(t *target, jobs []job, jobIdx []int, nw int, skipJob, s
 					sl.cur = b
 					sl.mu.Unlock()
 					sl.start.Store(time.Now().UnixNano())
+					t1 := time.Now()
 					nt, p := safeCall(t, ctx, in)
 					sl.start.Store(0)
 					sl.seq.Add(1)
+					t2 := time.Now()
 					if quiesce != nil {
 						quiesce()
 					}
+					dbgCall += t2.Sub(t1)
+					dbgQ += time.Since(t2)
 					lc++
 					if nt {
 						ln++
@@ -270,7 +285,7 @@ func (e *engine) runJobs(t *target, jobs []job, jobIdx []int, nw int, skipJob, s
 		}()
 	}
 	done := make(chan struct{})
-	go func() { wg.Wait(); close(done) }()
+	go func() { close(start); wg.Wait(); close(done) }()
 	tick := time.NewTicker(500 * time.Millisecond)
 	defer tick.Stop()
 	for {
@@ -353,8 +368,10 @@ func (e *engine) runTarget(t *target) {
 	if atomic.LoadInt32(&e.capped) != 0 {
 		exhaustive, note = false, "wall-clock budget reached"
 	}
+	e.mu.Lock()
 	e.evals += calls
 	e.nontriv += nt
+	e.mu.Unlock()
 	e.run.AddEvals(calls, nt)
 	e.run.AddPart(report.Part{Name: t.name, Engine: "D", Bound: boundText(t, e.thorough), Exhaustive: exhaustive,
 		Note: strings.TrimSpace(fmt.Sprintf("jobs=%d calls=%d nontrivial=%d %.1fs %s", len(jobs), calls, nt, time.Since(t0).Seconds(), note))})
@@ -507,6 +524,7 @@ func (e *engine) runChild(t *target, shard, skip, one string) childResult {
 		args = append(args, "-c09one", one)
 	}
 	cmd := exec.Command(os.Args[0], args...)
+	cmd.Env = append(os.Environ(), "GOMAXPROCS=2") // one worker + the goroutines of the code under test
 	pr, pw, err := os.Pipe()
 	if err != nil {
 		res.harnessErr = err.Error()
@@ -515,6 +533,12 @@ func (e *engine) runChild(t *target, shard, skip, one string) childResult {
 	cmd.ExtraFiles = []*os.File{pw}
 	var stderr strings.Builder
 	cmd.Stderr = &limitedWriter{w: &stderr, n: 1 << 20}
+	if d := os.Getenv("C09_CHILD_STDERR"); d != "" { // debugging aid
+		if f, err := os.Create(d + "/" + strings.ReplaceAll(shard, "/", "of") + fmt.Sprintf("-%d.err", time.Now().UnixNano())); err == nil {
+			cmd.Stderr = f
+			defer f.Close()
+		}
+	}
 	out, err := cmd.StdoutPipe()
 	if err != nil {
 		res.harnessErr = err.Error()
@@ -553,7 +577,7 @@ func (e *engine) runChild(t *target, shard, skip, one string) childResult {
 			in, _ := hex.DecodeString(m.Viol.Input)
 			e.record(m.Viol.Kind, t, in, m.Viol.Site, m.Viol.Msg, m.Viol.Stack)
 			e.mu.Lock()
-			if w := e.wit[m.Viol.Kind+"|"+m.Viol.Site]; w != nil && m.Viol.Count > 1 {
+			if w := e.wit[m.Viol.Site]; w != nil && m.Viol.Count > 1 {
 				w.count += m.Viol.Count - 1
 				w.targets[t.name] += m.Viol.Count - 1
 			}
@@ -691,6 +715,9 @@ func childMain(run *report.Run, ts []*target) int {
 	for _, w := range e.sorted() {
 		enc.Encode(childMsg{Viol: &childViol{Kind: w.kind, Site: w.site, Msg: w.msg, Stack: w.stack, Input: hex.EncodeToString(w.input), Count: w.count}})
 	}
+	if os.Getenv("C09_TIMING") != "" {
+		fmt.Fprintf(os.Stderr, "call=%v quiesce=%v\n", dbgCall, dbgQ)
+	}
 	if hung {
 		enc.Encode(childMsg{Hung: true, Evals: calls, NT: nt})
 		return 3
@@ -720,7 +747,7 @@ func (e *engine) sorted() []*witness {
 	for _, w := range e.wit {
 		ws = append(ws, w)
 	}
-	sort.Slice(ws, func(i, j int) bool { return ws[i].kind+ws[i].site < ws[j].kind+ws[j].site })
+	sort.Slice(ws, func(i, j int) bool { return ws[i].site < ws[j].site })
 	return ws
 }
 
@@ -737,7 +764,7 @@ func (e *engine) reportViolations() {
 		}
 		v := report.Violation{
 			Part: w.entry, Kind: w.kind, Site: w.site,
-			Detail: fmt.Sprintf("%s; shortest input %d bytes via %s; %d inputs hit this site: %s", w.msg, len(w.input), w.target, w.count, strings.Join(hit, ", ")),
+			Detail: fmt.Sprintf("%s; shortest input %d bytes via %s; %d inputs hit this site (%d of them killed the worker process from a goroutine): %s", w.msg, len(w.input), w.target, w.count, w.deaths, strings.Join(hit, ", ")),
 			Trace:  []string{w.target, hex.EncodeToString(w.input)},
 			Extra:  map[string]any{"target": w.target, "input_hex": hex.EncodeToString(w.input), "stack": tail(w.stack, 6000)},
 		}
